@@ -39,6 +39,10 @@ from .values import (
 )
 
 import os
+from fractions import Fraction
+
+F0 = Fraction(0)
+INT = frozenset({"int"})
 
 TRACE = bool(os.environ.get('OSV_TRACE'))
 UNROLL = 4
@@ -200,6 +204,25 @@ class ExecMixin:
 
     # ---------------------------------------------------------------- assignment
     def exec_Assign(self, st, state):
+        acc = _accumulate_form(st)
+        if acc is not None and (self.hooks.get("aug") is not None or (self.reductions and id(st) in self.reductions[-1])):
+            # `T = T op e` (also `T = e + T`, `d[k] = d.get(k, c) + e`): the spelled-out form of `T op= e`
+            swapped, twin = acc
+            l = self.eval(st.value.left, state)
+            r = self.eval(st.value.right, state)
+            if state.bottom:
+                return
+            cur, rhs = (r, l) if swapped else (l, r)
+            if self.reductions and id(st) in self.reductions[-1]:
+                self.reductions[-1][id(st)].append((rhs, self.loops[-1].token if self.loops else None))
+            v = self.binop(st.value.op, l, r, st.value, state)
+            h = self.hooks.get("aug")
+            if h is not None:
+                r_ = h(self, twin, cur, rhs, v, state)
+                if r_ is not None:
+                    v = r_
+            self.assign(st.targets[0], v, state, st)
+            return
         if isinstance(st.value, ast.IfExp):
             # `t = a if c else b` is the statement `if c: t = a else: t = b`: each arm keeps its own term and the facts of its branch
             self._assign_ifexp(st, st.value, state)
@@ -493,7 +516,78 @@ class ExecMixin:
         return v
 
     # ---------------------------------------------------------------- loops
+    def _counted_while(self, st, state):
+        """`p = 0` ... `while p < STOP: BODY; p += STEP` with loop-invariant STOP and a positive loop-invariant STEP is
+        `for p in range(0, STOP, STEP): BODY`. Returns the equivalent For node (made once, kept on the statement) or None."""
+        twin = getattr(st, "_osv_for_twin", 0)
+        if twin == 0:
+            twin = None
+            t = st.test
+            last = st.body[-1] if st.body else None
+            step = None
+            if isinstance(t, ast.Compare) and len(t.ops) == 1 and isinstance(t.ops[0], ast.Lt) and isinstance(t.left, ast.Name) and len(st.body) >= 2:
+                p = t.left.id
+                if isinstance(last, ast.AugAssign) and isinstance(last.op, ast.Add) and isinstance(last.target, ast.Name) and last.target.id == p:
+                    step = last.value
+                elif isinstance(last, ast.Assign) and _accumulate_form(last) is not None and isinstance(last.targets[0], ast.Name) and last.targets[0].id == p and isinstance(last.value.op, ast.Add):
+                    step = last.value.left if _accumulate_form(last)[0] else last.value.right
+            if step is not None:
+                stop = t.comparators[0]
+
+                def simple(e) -> bool:
+                    if isinstance(e, (ast.Name, ast.Constant)):
+                        return True
+                    if isinstance(e, ast.BinOp):
+                        return simple(e.left) and simple(e.right)
+                    return isinstance(e, ast.Call) and isinstance(e.func, ast.Name) and e.func.id == "len" and len(e.args) == 1 and isinstance(e.args[0], ast.Name) and not e.keywords
+
+                names = {n.id for e in (stop, step) for n in ast.walk(e) if isinstance(n, ast.Name)} - {"len"}
+                body = st.body[:-1]
+                ok = simple(stop) and simple(step) and p not in names
+                for b in body:
+                    for n in ast.walk(b):
+                        if isinstance(n, ast.Name) and isinstance(n.ctx, (ast.Store, ast.Del)) and (n.id == p or n.id in names):
+                            ok = False
+                        elif isinstance(n, (ast.Continue, ast.Global, ast.Nonlocal, ast.FunctionDef, ast.Lambda)):
+                            ok = False
+                        elif isinstance(n, ast.Attribute) and isinstance(n.value, ast.Name) and n.value.id in names:
+                            ok = False  # a method of an object STOP/STEP read (it might change len())
+                        elif isinstance(n, ast.Subscript) and isinstance(n.ctx, (ast.Store, ast.Del)) and isinstance(n.value, ast.Name) and n.value.id in names:
+                            ok = False
+                        elif isinstance(n, ast.Call) and any(isinstance(a, ast.Name) and a.id in names for a in n.args) and not (isinstance(n.func, ast.Name) and n.func.id in ("len", "sum", "min", "max", "float", "int", "abs")):
+                            ok = False  # handed to something that might mutate it
+                if ok:
+                    rng = ast.Call(func=ast.Name(id="range", ctx=ast.Load()), args=[ast.Constant(value=0), stop, step], keywords=[])
+                    twin = ast.For(target=ast.Name(id=p, ctx=ast.Store()), iter=rng, body=body, orelse=st.orelse, type_comment=None)
+                    ast.copy_location(twin, st)
+                    for n in (rng, rng.func, rng.args[0], twin.target):
+                        ast.copy_location(n, st)
+            st._osv_for_twin = twin
+        if twin is None:
+            return None
+        key0 = self.lookup_key(twin.target.id, state)
+        p0 = state.vars[key0] if key0 is not None else None
+        if not (isinstance(p0, Num) and p0.const == 0 and not isinstance(p0.const, bool)):
+            return None
+        probe = state.copy()
+        saved = (self.events, self.diags, self.obligations, self.raises, self.undecided)
+        self.events, self.diags, self.obligations, self.raises, self.undecided = [], {}, {}, [], []
+        try:
+            k = self.eval(twin.iter.args[2], probe)
+        finally:
+            self.events, self.diags, self.obligations, self.raises, self.undecided = saved
+        if probe.bottom or not (isinstance(k, Num) and k.rng is not None and k.rng.lo >= 1 and k.kinds == INT):
+            return None
+        return twin
+
     def exec_While(self, st, state):
+        twin = self._counted_while(st, state)
+        if twin is not None:
+            self.exec_For(twin, state)
+            if not state.bottom:
+                # after the loop the counter is some integer >= STOP (the For leaves its last value)
+                self.set_var(twin.target.id, Num(kinds=INT, rng=Interval(0.0, INF, False, True), deg=F0), state, twin.target)
+            return
         lid = self.site_id("while", st)
         lc = LoopCtx(lid, f"w{lid}", Length(None, 0, INF), False)
         self.token_loop[lc.token] = lc.loopid
@@ -548,25 +642,38 @@ class ExecMixin:
             nodes = [n for s_ in st.body for n in ast.walk(s_)]
             if not any(isinstance(n, (ast.Break, ast.Return, ast.Yield, ast.YieldFrom)) for n in nodes):
                 for i, s_ in enumerate(st.body):
-                    if not (isinstance(s_, ast.AugAssign) and isinstance(s_.target, ast.Name) and isinstance(s_.op, (ast.Add, ast.Sub))):
+                    term = None  # the summand expression
+                    if isinstance(s_, ast.AugAssign) and isinstance(s_.target, ast.Name) and isinstance(s_.op, (ast.Add, ast.Sub)):
+                        name, term, op_ = s_.target.id, s_.value, s_.op
+                    elif isinstance(s_, ast.Assign) and _accumulate_form(s_) is not None and isinstance(s_.targets[0], ast.Name) and isinstance(s_.value.op, (ast.Add, ast.Sub)):
+                        # acc = acc + e   /   acc = e + acc   /   acc = acc - e
+                        name, op_ = s_.targets[0].id, s_.value.op
+                        term = s_.value.left if _accumulate_form(s_)[0] else s_.value.right
+                    if term is None:
                         continue
-                    name = s_.target.id
                     stores = [n for n in nodes if isinstance(n, ast.Name) and n.id == name and isinstance(n.ctx, (ast.Store, ast.Del))]
-                    if len(stores) != 1 or any(isinstance(n, ast.Name) and n.id == name for n in ast.walk(s_.value)):
+                    if len(stores) != 1 or any(isinstance(n, ast.Name) and n.id == name for n in ast.walk(term)):
                         continue
                     if any(isinstance(n, (ast.Continue, ast.Raise)) for e_ in st.body[:i] for n in ast.walk(e_)):
                         continue
                     if any(isinstance(n, (ast.Global, ast.Nonlocal)) for n in nodes):
                         continue
-                    out.append((name, s_, 1 if isinstance(s_.op, ast.Add) else -1))
+                    out.append((name, s_, 1 if isinstance(op_, ast.Add) else -1))
         st._osv_reductions = out
         return out
 
     def _close_reductions(self, st, seq: Seq, state: State, cands, entry, rec, outer_tokens) -> None:
         """After the loop: acc = acc_entry (+/-) fold(+, k, e[k], len): the accumulated local gets the fold's term as its value
         number (its interval, degree and provenance stay what the iteration computed)."""
-        if seq.length.term is None or seq.flags & {"partial", "reordered", "building", "weak-append", "cond-append", "multi-append", "unmodelled"}:
+        tail1 = "tail1" in seq.flags
+        bad_flags = {"reordered", "building", "weak-append", "cond-append", "multi-append", "unmodelled"} | (set() if tail1 else {"partial"})
+        if seq.length.term is None or seq.flags & bad_flags:
             return
+        length_term = seq.length.term
+        if tail1:
+            if not (isinstance(length_term, tuple) and len(length_term) == 3 and length_term[0] == "add" and length_term[2] == -1):
+                return
+            length_term = length_term[1]
         for name, aug, sign in cands:
             key, v0 = entry[name]
             obs = rec.get(id(aug)) or []
@@ -583,23 +690,40 @@ class ExecMixin:
             if not isinstance(cur, Num):
                 continue
             fv = f"$f{self.site_id('fold', aug)}"
-            esym = subst_sym(rhs.sym, {tok: ivar(fv)})
-            fold = mk_sym("fold", ("const", "+"), ("const", fv), esym, ("lenterm", seq.length.term))
-            if sign < 0:
-                fold = mk_sym("neg", fold)
-            v0sym = v0.sym if v0.sym is not None else ("const", v0.const)
-            sym = fold if (v0.const is not None and v0.const == 0) else mk_sym("add", v0sym, fold)
+            if tail1:
+                # acc starts as e(xs[0]) and adds e(xs[k + 1]) over the tail: the fold of e over all of xs (the reduce() idiom)
+                from .values import map_sym_indices
+
+                shifted = ("k", ("add", ("idx", ivar(tok)), ("const", 1)))
+                if sign < 0 or v0.sym is None or v0.sym != map_sym_indices(rhs.sym, lambda t: ("c", 0) if t == shifted else None):
+                    continue
+                esym = map_sym_indices(rhs.sym, lambda t: ivar(fv) if t == shifted else None)
+                toks_left: set = set()
+                from .values import sym_index_vars
+
+                sym_index_vars(esym, toks_left)
+                if tok in toks_left:
+                    continue
+                sym = mk_sym("fold", ("const", "+"), ("const", fv), esym, ("lenterm", length_term))
+            else:
+                esym = subst_sym(rhs.sym, {tok: ivar(fv)})
+                fold = mk_sym("fold", ("const", "+"), ("const", fv), esym, ("lenterm", length_term))
+                if sign < 0:
+                    fold = mk_sym("neg", fold)
+                v0sym = v0.sym if v0.sym is not None else ("const", v0.const)
+                sym = fold if (v0.const is not None and v0.const == 0) else mk_sym("add", v0sym, fold)
             wt = cur.wt
             if self.shift_mode:
                 from . import shift
 
-                fw = shift.fold_sum(self, rhs, seq.length.term, aug)
+                fw = shift.fold_sum(self, rhs, length_term, aug)
                 if fw is not None and sign < 0:
                     fw = shift.neg(self, replace(rhs, wt=fw), aug)
                 w0 = shift.weight_of(self, v0)
                 wt = shift.binop(self, "add", replace(v0, wt=w0), replace(rhs, wt=fw), aug) if fw is not None and w0 is not None else None
             elem_k = subst_val(rhs, {tok: ivar(fv)})
-            self.event("fold", aug, how="loop", seq=Seq(seq.length, elem_k, fv, None, None, seq.flags, "iter"), elem=rhs, sym=sym, full=True, additive=True)
+            ev_len = seq.length if not tail1 else Length(length_term, seq.length.lo + 1, seq.length.hi + 1 if seq.length.hi != INF else INF)
+            self.event("fold", aug, how="loop", seq=Seq(ev_len, elem_k, fv, None, None, seq.flags - {"partial", "tail1"}, "iter"), elem=rhs, sym=sym, full=True, additive=True)
             self.axiom("a local changed only by one unconditional `acc += e` per iteration holds, after the loop, its entry value plus the sum of e over all iterations")
             state.vars[key] = replace(cur, sym=sym, wt=wt)
 
@@ -952,6 +1076,33 @@ def _narrow_none(v: Val, want_none: bool) -> Val:
     if isinstance(v, NoneV) != want_none:
         return Bottom()
     return v
+
+
+def _accumulate_form(st: ast.Assign):
+    """`T = T op e`, `T = e + T`, `T[k] = T.get(k, c) op e`: (operands swapped?, the equivalent AugAssign node) or None.
+    The twin node is created once and kept on the statement (see _as_load)."""
+    got = getattr(st, "_osv_acc_form", 0)
+    if got != 0:
+        return got
+    res = None
+    if len(st.targets) == 1 and isinstance(st.value, ast.BinOp) and isinstance(st.value.op, (ast.Add, ast.Sub, ast.Mult)) and isinstance(st.targets[0], (ast.Name, ast.Attribute, ast.Subscript)):
+        t = st.targets[0]
+        want = ast.dump(_as_load(t))
+        l_, r_ = st.value.left, st.value.right
+        swapped = None
+        if ast.dump(l_) == want:
+            swapped = False
+        elif (isinstance(t, ast.Subscript) and isinstance(l_, ast.Call) and isinstance(l_.func, ast.Attribute) and l_.func.attr == "get" and len(l_.args) == 2 and not l_.keywords
+              and ast.dump(ast.Subscript(value=l_.func.value, slice=l_.args[0], ctx=ast.Load())) == want):
+            swapped = False
+        elif ast.dump(r_) == want and isinstance(st.value.op, (ast.Add, ast.Mult)):
+            swapped = True
+        if swapped is not None and not any(ast.dump(n) == want for n in ast.walk(l_ if swapped else r_)):
+            twin = ast.AugAssign(target=t, op=st.value.op, value=l_ if swapped else r_)
+            ast.copy_location(twin, st)
+            res = (swapped, twin)
+    st._osv_acc_form = res
+    return res
 
 
 def _as_load(t: ast.expr) -> ast.expr:
